@@ -23,6 +23,11 @@
 (* the SCMP code of the reply.                                                                  *)
 EXTENDS Naturals, Sequences, TLC
 
+\* I-layer variant: "code" = the filter as implemented; the others are deliberately broken filters
+\* used as oracle self-checks (TLC must refute them): "nosrc" skips the source comparison,
+\* "alias" takes every 4-/16-byte address type for IPv4/IPv6, "nopath" skips the path-type test
+CONSTANT VARIANT
+
 AddrLen(n) == ((n % 4) + 1) * 4
 IPV4 == 0      \* T = 0, L = 0
 IPV6 == 3      \* T = 0, L = 3
@@ -39,7 +44,7 @@ PathLen(d) == CASE d.pt = 0 -> 0
 AddrEnd(d)  == 12 + 16 + AddrLen(d.dt) + AddrLen(d.st)
 HdrBytes(d) == AddrEnd(d) + PathLen(d)
 Advertised(d) == CASE d.hl = "exact" -> HdrBytes(d)
-                   [] d.hl = "less" -> HdrBytes(d) - 4
+                   [] d.hl = "less" -> IF HdrBytes(d) - 4 > 1020 THEN 1020 ELSE HdrBytes(d) - 4
                    [] OTHER -> HdrBytes(d) + 4
 
 \* a descriptor the harness can turn into bytes
@@ -48,6 +53,7 @@ Feasible(d) ==
   /\ (d.pt \notin {0, 1, 2} => d.hl = "exact")                      \* other types: the path IS the rest of the header
   /\ (d.rel = "same" => AddrLen(d.st) = (IF d.peer = "v4" THEN 4 ELSE 16))
   /\ (d.rel = "mappedform" => (d.peer = "v4" /\ AddrLen(d.st) = 16) \/ (d.peer = "v4mapped" /\ AddrLen(d.st) = 4))
+  /\ (d.rel = "low4" => AddrLen(d.st) > 4 \/ d.peer = "v6")       \* with a 4-byte source "low 4 bytes" IS the address
   /\ (d.cut = "in_path" => PathLen(d) > 0)
 
 \* ---------------------------------------------------------------- P-layer
@@ -72,8 +78,10 @@ ShouldDispatch(d)  == HeaderParses(d) /\ SrcIsPeer(d) /\ PathSupported(d)
 \* ---------------------------------------------------------------- I-layer (shaped like the code)
 Decide(d) ==
   CASE ~HeaderParses(d) -> "Reply:InvalidCommonHeader"
-    [] ~(d.st \in {IPV4, IPV6} /\ d.rel = "same") -> "Reply:InvalidSourceAddress"
-    [] ~PathSupported(d) -> "Reply:UnknownPathType"
+    [] VARIANT = "code" /\ ~(d.st \in {IPV4, IPV6} /\ d.rel = "same") -> "Reply:InvalidSourceAddress"
+    [] VARIANT = "alias" /\ ~(AddrLen(d.st) \in {4, 16} /\ d.rel = "same") -> "Reply:InvalidSourceAddress"
+    [] VARIANT = "nopath" /\ ~(d.st \in {IPV4, IPV6} /\ d.rel = "same") -> "Reply:InvalidSourceAddress"
+    [] VARIANT # "nopath" /\ ~PathSupported(d) -> "Reply:UnknownPathType"
     [] OTHER -> "Dispatch"
 
 Refines(d) == /\ (Decide(d) = "Dispatch" => ~MustNotDispatch(d))
